@@ -23,6 +23,24 @@ structure Atom where
   model : Int
   deriving Repr, DecidableEq, Inhabited
 
+/-- a cell value as SQLite stores it -/
+inductive Val
+  | int (i : Int) | real (r : Rat) | text (s : Str)
+  deriving DecidableEq, Repr, Inhabited
+
+/-- a row as `get('*')` returns it -/
+abbrev Row := List Val
+
+def Atom.toRow (a : Atom) : Row :=
+  [.int a.serial, .text a.name, .text a.altLoc, .text a.resName, .text a.chainID, .int a.resSeq, .text a.iCode,
+   .real a.x, .real a.y, .real a.z, .real a.occ, .real a.temp, .text a.element, .int a.model]
+
+def Atom.ofRow : Row → Option Atom
+  | [.int serial, .text name, .text altLoc, .text resName, .text chainID, .int resSeq, .text iCode,
+     .real x, .real y, .real z, .real occ, .real temp, .text element, .int model] =>
+    some { serial, name, altLoc, resName, chainID, resSeq, iCode, x, y, z, occ, temp, element, model }
+  | _ => none
+
 def Atom.fieldNames : List String :=
   ["serial", "name", "altLoc", "resName", "chainID", "resSeq", "iCode",
    "x", "y", "z", "occ", "temp", "element", "model"]
